@@ -30,6 +30,12 @@
             final(state).only_remove_conns_changed(old(state)),
             // ends are only closed and channels only dropped: claimed ends keep belonging to connected clients
             old(self).chan_owners_connected() ==> final(self).chan_owners_connected(),
+            // statistics: the channel counter is decremented exactly when the channel is dropped from the table
+            old(self).stat_channels_ok() ==> final(self).stat_channels_ok(),
+            final(self).statistics.num_connections == old(self).statistics.num_connections,
+            final(self).statistics.num_objects == old(self).statistics.num_objects,
+            final(self).statistics.num_services == old(self).statistics.num_services,
+            final(self).statistics.num_bus_listeners == old(self).statistics.num_bus_listeners,
             !old(self).channels@.contains_key(cookie) ==> final(self).channels@ == old(self).channels@
                 && final(self).conns@ == old(self).conns@,
             old(self).channels@.contains_key(cookie) ==> {
